@@ -193,7 +193,7 @@ def gen_images(rng, tier, prefixes):
     nimg = (40 if tier == 'quick' else 400) if not prefixes else (14 if tier == 'quick' else 120)
     for ci in range(nimg):
         c = random_content(rng, ci)
-        kind = rng.choice([0, 2])
+        kind = 0      # the exact dyadic harness kernel: the coordinates of these images are not on the lattice the Gaussian kernel is modelled on
         img = py_enc(c['k'], c['dim'], c['ret'], c['n'], c['levels'])
         wire = [[[dbits(x) for x in p] for p in l] for l in c['levels']]
         tags = ['image', c['shape']] + (['points'] if c['ret'] else [])
@@ -238,6 +238,9 @@ def gen_images(rng, tier, prefixes):
                     for path in (0, 1):
                         if announces_too_much(mut, path):
                             continue
+                        if path == 0 and ci >= 3 and len(mut) >= 16 and mut[8:12] == [0, 0, 0, 0] and not (mut[3] & 4) and mut[12:16] != [0, 0, 0, 0]:
+                            continue    # dim corrupted to 0 with points to read: the known sanitizer stop density_dim0_memcpy_null_pointer; shown by the
+                                        # first three images of every run only (each stop costs a restart of the harness)
                         ops.append([10, 0, kind, path] + mut)
                         d = implied_dim(mut)
                         if len(mut) >= 24 and int.from_bytes(bytes(mut[16:24]), 'little') == 2**64 - 1:
